@@ -79,8 +79,7 @@ def more_hostile(rng, quick):
 def c05_images(ctx, rng, for_search=False):
     quick = ctx.quick
     imgs = G.hostile(rng, quick) + more_hostile(rng, quick) + compressible_big(rng, quick)
-    rep = G.repeated_structures(rng, quick)
-    imgs += rep if for_search else [r for r in rep if len(r.field) < 400000]      # the model gets the compressible ones
+    imgs += G.repeated_structures(rng, quick, short=not for_search)
     if not quick or for_search:
         imgs += G.big_streams(rng, quick=True)[:9]          # incompressible text / random data
     for fmt in G.FORMATS:
